@@ -94,6 +94,9 @@ def null_of(ty):
     return {'BOOLEAN': False, 'INTEGER': 0, 'REAL': 0.0, 'STRING': '', 'UNIQUE_ID': 0}[ty.upper()]
 
 
+SHAPES = {}       # shapes produced so far (evidence)
+
+
 def random_schema(rng, hostile_names=True, max_classes=5, shapes=None, max_attrs=5):
     '''
     -> Schema. Every association end gets its own multiplicity, phrases only
@@ -112,7 +115,7 @@ def random_schema(rng, hostile_names=True, max_classes=5, shapes=None, max_attrs
     rops = []
     uniques = []
     rel = 0
-    shapes = shapes or ('simple', 'simple', 'reflexive', 'assoc', 'multikey', 'subsuper', 'shared', 'chained')
+    shapes = shapes or ('simple', 'simple', 'reflexive', 'assoc', 'multikey', 'subsuper', 'shared', 'chained', 'samekey')
     for _ in range(rng.randint(0, 5)):
         shape = rng.choice(shapes)
         rel += rng.randint(1, 3)
@@ -139,6 +142,26 @@ def random_schema(rng, hostile_names=True, max_classes=5, shapes=None, max_attrs
             refs = [add_attr(rng, s, ty, hostile_names) for ty in tys]
             rops.append(Rop(rel, s[0], refs, rng.choice(('M', 'MC', '1C')), '',
                             t[0], keys, rng.choice(('1', '1C')), ''))
+        elif shape == 'samekey':
+            # a further association through an identifier another association already refers to, its attributes
+            # listed in another order when there are several
+            earlier = [r for r in rops if r.src != r.tgt]
+            if not earlier:
+                continue
+            e = rng.choice(earlier)
+            t = [c for c in classes if c[0] == e.tgt][0]
+            s = rng.choice([c for c in classes if c is not t] or [None])
+            if s is None:
+                continue
+            order = list(range(len(e.tgt_keys)))
+            rng.shuffle(order)
+            keys = [e.tgt_keys[i] for i in order]
+            tys = [dict((a.upper(), ty) for a, ty in t[1])[k.upper()] for k in keys]
+            refs = [add_attr(rng, s, ty.upper(), hostile_names) for ty in tys]
+            rops.append(Rop(rel, s[0], refs, rng.choice(('M', 'MC', '1C')), '', t[0], keys, rng.choice(('1', '1C')), ''))
+            if len(keys) > 1 and keys != list(e.tgt_keys):
+                SHAPES['identifier-referred-to-in-two-attribute-orders'] = \
+                    SHAPES.get('identifier-referred-to-in-two-attribute-orders', 0) + 1
         elif shape == 'reflexive':
             c = rng.choice(classes)
             ty = rng.choice(('UNIQUE_ID', 'INTEGER', 'STRING'))
@@ -197,6 +220,14 @@ def random_schema(rng, hostile_names=True, max_classes=5, shapes=None, max_attrs
             rops.append(Rop(rel, s[0], [ref], 'MC', '', t1[0], [k1], '1C', ''))
             rel += 1
             rops.append(Rop(rel, s[0], [ref], 'MC', '', t2[0], [k2], '1C', ''))
+    if rng.random() < 0.5:
+        # the order in which associations are declared is arbitrary: the formalisations of one association number
+        # (association class, subtypes) need not follow one another
+        rng.shuffle(rops)
+        if any(rops[i].rel == rops[j].rel and any(r.rel != rops[i].rel for r in rops[i + 1:j])
+               for i in range(len(rops)) for j in range(i + 2, len(rops))):
+            SHAPES['association-number-declared-in-two-separate-runs'] = \
+                SHAPES.get('association-number-declared-in-two-separate-runs', 0) + 1
     for c in classes:
         if c[1]:
             for n in range(rng.choice((0, 0, 1, 1, 2, 3))):
